@@ -65,7 +65,22 @@ func propInvalidator(c *Case) {
 		offsets[i] = cur
 	}
 
-	c.Tracef("SkipInterval=%v callbacks=%d (empty list=%v) caller offsets=%v", skip, ncb, emptyList, offsets)
+	// caller contexts: 0 background, 1 cancelled before the call, 2 cancelled by callback #cancelAt while it runs
+	ctxMode := make([]int, ncallers)
+	cancelAt := make([]int, ncallers)
+
+	for i := range ctxMode {
+		ctxMode[i] = c.Weighted("ctx", 4, 1, 1)
+		if ctxMode[i] == 2 && ncb > 0 {
+			cancelAt[i] = c.Pick("cancel-at", ncb)
+		}
+
+		if ctxMode[i] != 0 {
+			c.Class("cancelled-context")
+		}
+	}
+
+	c.Tracef("SkipInterval=%v callbacks=%d (empty list=%v) caller offsets=%v ctx modes=%v", skip, ncb, emptyList, offsets, ctxMode)
 
 	c.Bubble(func() {
 		inv := &cache.Invalidator{SkipInterval: skip}
@@ -78,6 +93,7 @@ func propInvalidator(c *Case) {
 		)
 
 		curCaller := map[int64]int{}
+		cancels := map[int]context.CancelFunc{}
 
 		if emptyList {
 			inv.Callbacks = []func(context.Context){}
@@ -91,8 +107,14 @@ func propInvalidator(c *Case) {
 				}
 
 				mu.Lock()
-				events = append(events, cbEvent{caller: curCaller[curGoID()], index: j, at: time.Now().UnixNano()})
+				who := curCaller[curGoID()]
+				events = append(events, cbEvent{caller: who, index: j, at: time.Now().UnixNano()})
+				cancel := cancels[who]
 				mu.Unlock()
+
+				if ctxMode[who] == 2 && cancelAt[who] == j && cancel != nil {
+					cancel()
+				}
 
 				for k := 0; k < 3; k++ {
 					runtime.Gosched()
@@ -124,9 +146,20 @@ func propInvalidator(c *Case) {
 				curCaller[curGoID()] = i
 				mu.Unlock()
 
+				ctx, cancel := context.WithCancel(context.Background())
+				defer cancel()
+
+				mu.Lock()
+				cancels[i] = cancel
+				mu.Unlock()
+
+				if ctxMode[i] == 1 {
+					cancel()
+				}
+
 				time.Sleep(offsets[i])
 
-				err := inv.Invalidate(context.Background())
+				err := inv.Invalidate(ctx)
 				results[i] = result{err: err, at: time.Now().UnixNano()}
 			}()
 		}
